@@ -2,9 +2,11 @@
   C03 — step barrier: `~` actions wait for every branch of the previous step.
   Part 1 (this file): program order on the calling thread and data flow, for the sequential and
   thread-spawning macros.  Part 2 (Props/C08.lean, `Lin`): every interleaving of the branch threads.
+  Part 3 (last section): the async macros, every order in which pending futures become ready.
 -/
 import JoinModel.Props.Common
 import JoinModel.Lemmas.LinLoop
+import JoinModel.AsyncSpec
 namespace JoinModel.Props.C03
 open JoinModel JoinModel.Props
 
@@ -60,5 +62,41 @@ example : Lin [.fork 0 0 "a" [.chainStart 0 0], .fork 1 0 "b" [.chainStart 1 0],
   apply Lin.fork; apply Lin.fork
   exact Lin.thr _ [((0, 0), [.chainStart 0 0])] [] (1, 0) _ [] _
     (Lin.thr _ [] [((1, 0), [])] (0, 0) _ [] _ (Lin.join 0 0 _ [] [((1, 0), [])] _ (Lin.join 1 0 _ [] [] _ (Lin.done _))))
+
+/-! ### the async macros: every schedule of gate openings -/
+
+theorem filterMap_step_eq (l : List MEv) (h : ∀ e ∈ l, e.step.isSome = true) : l.filterMap MEv.step = l.map stepLevel := by
+  induction l with
+  | nil => rfl
+  | cons e l ih =>
+    have he := h e List.mem_cons_self
+    cases hs : e.step with
+    | none => rw [hs] at he; cases he
+    | some k => simp [List.filterMap_cons, hs, stepLevel, ih (fun x hx => h x (List.mem_cons_of_mem _ hx))]
+
+/-- **The step barrier for the async macros, under every schedule.**  The `async move` block of any async macro
+    (`planLoop`: from any step `k` and state `vals`, with arbitrary pending points `pend` inside the chains), polled with
+    any sequence `gs` of sets of open gates — any order in which the pending futures become ready, any batches, spurious
+    polls, finished or not: along everything it emits, the step numbers never decrease.  No operand, callback or block
+    capture of step k+1 runs before every chain of step k has finished — also when chains fail or panic. -/
+theorem async_barrier_every_schedule (c : SpecCfg) (pend : Pend) (rem k : Nat) (vals : List (Option Value)) (gs : List Gates) :
+    (((planLoop c pend rem k vals).1 ++ ((planLoop c pend rem k vals).2.run gs).1).filterMap MEv.step).Pairwise (· ≤ ·) := by
+  obtain ⟨h1', h2, _, h3⟩ := planLoop_leveled c pend rem k vals
+  have h1 : ∀ e ∈ (planLoop c pend rem k vals).1, e.step = some k := fun e he => (h1' e he).1
+  obtain ⟨m, _, _, hs, hb⟩ := h2.run stepLevel gs
+  obtain ⟨ha, _⟩ := h3.run (fun e : MEv => e.step.isSome = true) gs
+  have hall : ∀ e ∈ (planLoop c pend rem k vals).1 ++ ((planLoop c pend rem k vals).2.run gs).1, e.step.isSome = true := by
+    intro e he
+    rcases List.mem_append.mp he with he | he
+    · simp [h1 e he]
+    · exact ha e he
+  rw [filterMap_step_eq _ hall, List.map_append, List.pairwise_append]
+  refine ⟨pairwise_const_level stepLevel _ k (fun e he => by simp [stepLevel, h1 e he]), hs, ?_⟩
+  intro a ha' b hb'
+  obtain ⟨x, hx, rfl⟩ := List.mem_map.mp ha'
+  obtain ⟨y, hy, rfl⟩ := List.mem_map.mp hb'
+  have := (hb y hy).1
+  simp only [stepLevel, h1 x hx, Option.getD_some] at this ⊢
+  exact this
 
 end JoinModel.Props.C03
